@@ -275,6 +275,12 @@ class Node:
             ep.send(addr_of(a), pkt)
         elif k == "osend":          # an overlay sends through its own code (introduction request)
             self.overlays[op[1]].walk_to(addr_of(op[2]))
+        elif k == "qbound":
+            # harness-side configuration (not an operation of the endpoint, not in the model): the same deque with a small
+            # bound, so that "more packets than the bound" takes a handful of sends; such histories are judged by the
+            # oracle only
+            from collections import deque
+            ep.send_queue = deque(ep.send_queue, maxlen=op[1])
         elif k == "setanon":
             ep.set_anonymity(op[1], op[2])
         elif k == "toggle":
@@ -589,6 +595,7 @@ class Oracle:
         self.attached = False
         self.hops = None
         self.asked = {}          # overlay index -> asked for anonymity
+        self.bound = QUEUE_BOUND # the documented maxlen (or the smaller one a harness-side "qbound" configured)
         self.viol = []
 
     def bad(self, key, what):
@@ -603,9 +610,12 @@ class Oracle:
         q0, q1 = st["pre"]["queue"], st["post"]["queue"]
         if st["err"]:
             self.bad("op/raises/%s/%s" % (k, st["err"]), "step %d %s raised %s" % (i, k, st["err"]))
-        # --- bounded queue
-        if len(q1) > QUEUE_BOUND:
-            self.bad("queue/unbounded", "step %d: %d packets waiting" % (i, len(q1)))
+        # --- bounded queue: after EVERY step, whatever the step was
+        if k == "qbound":
+            self.bound = min(QUEUE_BOUND, op[1])
+        if len(q1) > self.bound:
+            self.bad("queue/unbounded", "step %d (%s): %d packets waiting, the queue's bound is %d%s" % (
+                i, k, len(q1), self.bound, "" if st["post"]["qmax"] is not None else " (the deque in place has no maxlen any more)"))
         # --- every tunnel send is well formed
         for e in tunnels:
             _, target, cid, dest, org, data, snap, same_tc = e
@@ -773,6 +783,9 @@ async def _work_cases(cases):
     for (full, ops) in cases:
         steps, cidx = run_ops(ops, full)
         viol = Oracle().judge(steps, cidx)
+        if any(op[0] == "qbound" for op in ops):        # not comparable with the model (its bound is the source's)
+            out.append((None, viol, summarize(steps)))
+            continue
         out.append((case_coq(steps, cidx) + (str(path_digest(steps, cidx, bytes_full)),
                                                str(path_digest(steps, cidx, bytes_full, calls_only=True))),
                     viol, summarize(steps)))
@@ -818,6 +831,50 @@ async def _work_enum(alpha, pre, depth):
             viols.append((ops, v))
     await asyncio.sleep(0)
     return acc, viols, nseq, nontrivial
+
+
+async def _work_enum_oracle(alpha, pre, depth):
+    """every word over an alphabet of MACRO symbols (each a list of operations) after `pre`, judged by the oracle
+    only (histories with a harness-side queue bound have no counterpart in the model)"""
+    node = _node(False)
+    viols, nseq, nontrivial = [], 0, 0
+    for w in itertools.product(range(len(alpha)), repeat=depth):
+        ops = list(pre)
+        for i in w:
+            ops.extend(alpha[i])
+        steps = node.run(ops)
+        nseq += 1
+        if any(len(st["post"]["queue"]) >= st["post"]["qmax"] for st in steps if st["post"]["qmax"]):
+            nontrivial += 1
+        v = Oracle().judge(steps, node.cids)
+        if v and len(viols) < 3:
+            viols.append((ops, v))
+    await asyncio.sleep(0)
+    return viols, nseq, nontrivial
+
+
+def work_enum_oracle(args):
+    loop = asyncio.new_event_loop()
+    asyncio.set_event_loop(loop)
+    try:
+        return loop.run_until_complete(_work_enum_oracle(*args))
+    finally:
+        loop.run_until_complete(asyncio.sleep(0))
+        loop.close()
+
+
+SMALL_BOUND = 3
+
+
+def family_overflow(quick):
+    """F/overflow-after-flush: a small harness-side bound; packets wait, the circuit becomes ready, a send flushes,
+    the circuit goes away, a burst of bound+1 sends"""
+    burst = [("send", 20 + i, PFX_A + b"\x0c" + bytes([i]), False) for i in range(SMALL_BOUND + 1)]
+    alpha = [[("send", 7, PKT_A, True)], [("addhop", 0, EXIT_AD, [4])], [("close", 0)], [("remove", 0)], burst,
+             [("detach",), ("attach", 1)]]
+    return {"name": "F/overflow-after-flush (bound %d, oracle only)" % SMALL_BOUND,
+            "pre": [("qbound", SMALL_BOUND), ("setanon", PFX_A, True), ("attach", 1)],
+            "alpha": alpha, "depth": 5 if quick else 7, "split": 1 if quick else 2}
 
 
 def impl_op(sym):
@@ -1006,8 +1063,31 @@ def gen_scenario(r, n):
     return ops
 
 
+def gen_overflow_after_flush(r, bound=None):
+    """packets wait -> the circuit becomes ready -> a send flushes the backlog -> the circuit goes away -> more than a
+    queue full of sends.  bound: a small harness-side bound (oracle only), None: the real one (compared with the model)"""
+    h = r.choice([1, 1, 2])
+    ops = ([("qbound", bound)] if bound else []) + [("setanon", PFX_A, True), ("attach", h)]
+    n = bound or QUEUE_BOUND
+    for i in range(r.choice([1, 2, 3])):
+        ops.append(("send", 1 + i, PFX_A + b"\x09" + i.to_bytes(2, "big"), i == 0))
+    for _ in range(h - 1):
+        ops.append(("addhop", 0, RELAY_AD, [1]))
+    ops.append(("addhop", 0, EXIT_AD, [4]))
+    for i in range(r.choice([1, 1, 2])):
+        ops.append(("send", 5 + i, PFX_A + b"\x0aflush" + bytes([i]), False))
+    ops.append(r.choice([("close", 0), ("remove", 0), ("detach",), ("attach", h + 1)]))
+    if ops[-1] == ("detach",):
+        ops.append(("attach", h + 1))           # (while detached packets are dropped, not queued)
+    for i in range(n + r.choice([1, 2, 5])):
+        ops.append(("send", 1 + i % 30, PFX_A + b"\x0b" + i.to_bytes(2, "big"), False))
+    return ops
+
+
 def gen_overflow(r, variant):
     """more than a queue full of waiting packets, then a circuit becomes ready (or not)"""
+    if variant == 4:
+        return gen_overflow_after_flush(r)
     h = r.choice([1, 2])
     ops = [("setanon", PFX_A, True), ("attach", h)]
     n = QUEUE_BOUND + r.choice([-1, 0, 1, 5, 30])
@@ -1113,9 +1193,12 @@ def valid_history(ops, full):
     """histories the harness can execute meaningfully: an overlay sends only after it was launched; with real
     construction (full) the tunnel community exists only after its launch"""
     novl, tc = 0, not full
-    for op in ops:
+    for n_, op in enumerate(ops):
         k = op[0]
-        if k == "launch":
+        if k == "qbound":
+            if n_ != 0:
+                return False
+        elif k == "launch":
             novl += 1
         elif k == "osend" and op[1] >= novl:
             return False
@@ -1214,10 +1297,13 @@ def ops_from_json(js):
 def report(ctx, ops, full, viol):
     """one shrunk witness per violation key and run; further cases with the same key are only counted"""
     seen = ctx.extra.setdefault("violation_counts", {})
+    shown = ctx.__dict__.setdefault("_c07_shown", [])
+    small_bound = any(op[0] == "qbound" for op in ops)
     for key, what in viol:
         seen[key] = seen.get(key, 0) + 1
-        if seen[key] > 1:
+        if [key, small_bound] in shown:       # one witness per key under the real configuration, one under a harness-side bound
             continue
+        shown.append([key, small_bound])
         loop = asyncio.new_event_loop()
         asyncio.set_event_loop(loop)
         try:
@@ -1320,6 +1406,11 @@ def _stage_c(ctx, r, pool, have_model, have_gen=False):
             pre_coq = "[" + "; ".join([static_op_coq(o) for o in pre] + [static_op_coq(alpha[i]) for i in head]) + "]"
             enum_cases.append("([%s], %s, %d%%nat)" % ("; ".join(static_op_coq(o) for o in alpha), pre_coq, depth - split))
     async_enum = pool.map_async(work_enum, enum_jobs, chunksize=1)
+    ff = family_overflow(ctx.quick)
+    f_jobs = []
+    for head in itertools.product(range(len(ff["alpha"])), repeat=ff["split"]):
+        f_jobs.append((ff["alpha"], ff["pre"] + [o for i in head for o in ff["alpha"][i]], ff["depth"] - ff["split"]))
+    async_f = pool.map_async(work_enum_oracle, f_jobs, chunksize=1)
 
     # ---- generated histories (pre-built node): random mix, overflow
     nh = 1500 if ctx.quick else 6000
@@ -1327,8 +1418,13 @@ def _stage_c(ctx, r, pool, have_model, have_gen=False):
     for i in range(nh):
         n = r.choice([3, 6, 10, 16, 30]) if i % 20 else 60
         cases.append((False, gen_history(r, n) if i % 2 else gen_scenario(r, max(2, n // 2))))
-    for i in range(12 if ctx.quick else 60):
-        cases.append((False, gen_overflow(r, i % 4)))
+    for i in range(15 if ctx.quick else 60):
+        cases.append((False, gen_overflow(r, i % 5)))
+    for i in range(80 if ctx.quick else 600):          # overflow after a flush under a small harness-side bound, with noise
+        ops = gen_overflow_after_flush(r, bound=r.choice([1, 2, 3, 5, 8]))
+        for _ in range(r.choice([0, 0, 1, 3])):
+            ops.insert(r.randrange(3, len(ops) + 1), r.choice(gen_ops(r, 1, hops_choices=(1, 2), h_cur=1) or [("detach",)]))
+        cases.append((False, ops))
     # ---- histories with real overlays (full construction per case)
     for i in range(400 if ctx.quick else 2000):
         cases.append((True, gen_full(r, r.choice([4, 8, 14, 25]))))
@@ -1337,8 +1433,8 @@ def _stage_c(ctx, r, pool, have_model, have_gen=False):
     tm["impl_histories"] = round(time.time() - t0, 1)
     coq_cases, full_obs, kinds = [], [], {}
     dist = {"raw": 0, "tunnel": 0, "create": 0, "hist_with_tunnel": 0, "hist_queue_full": 0}
-    gen_digs = []
-    for (full, ops), ((c_ops, c_exp, c_dig, c_gdig), viol, summ) in zip(cases, results):
+    gen_digs, cmp_cases, n_oracle_only, failing = [], [], 0, []
+    for (full, ops), (c_all, viol, summ) in zip(cases, results):
         for op in ops:
             kinds[op[0]] = kinds.get(op[0], 0) + 1
         ctx.count(("hist", full, tuple(map(tuple_op, ops))), nontrivial=summ[1] > 0 or summ[3] > 0)
@@ -1348,10 +1444,18 @@ def _stage_c(ctx, r, pool, have_model, have_gen=False):
         dist["hist_with_tunnel"] += 1 if summ[1] else 0
         dist["hist_queue_full"] += 1 if summ[3] >= QUEUE_BOUND else 0
         if viol:
-            report(ctx, ops, full, viol)
+            failing.append((ops, full, viol))
+        if c_all is None:           # history with a harness-side queue bound: oracle only
+            n_oracle_only += 1
+            continue
+        c_ops, c_exp, c_dig, c_gdig = c_all
         coq_cases.append((c_ops, c_dig))
+        cmp_cases.append((full, ops))
         gen_digs.append(c_gdig)
         full_obs.append(c_exp)
+    ctx.extra["histories_oracle_only"] = n_oracle_only
+    for ops, full, viol in sorted(failing, key=lambda x: len(x[0])):       # short histories first: smaller witnesses
+        report(ctx, ops, full, viol)
     for (full, ops), (_, _, summ) in list(zip(cases, results))[:3]:
         ctx.sample({"history": ops_json(ops)[:12], "real_overlays": full, "raw/tunnel/create/maxqueue": summ})
     ctx.extra["op_mix"] = kinds
@@ -1383,14 +1487,14 @@ def _stage_c(ctx, r, pool, have_model, have_gen=False):
             ctx.broke("model evaluation failed (histories)", e)
         for i in gen_mism[:4]:
             ctx.broke("correspondence: history differs between the GENERATED functions (gen/G07_tunnel_ep.v) and the implementation",
-                      json.dumps({"full": cases[i][0], "ops": ops_json(cases[i][1]), "impl": full_obs[i][:1500]}))
+                      json.dumps({"full": cmp_cases[i][0], "ops": ops_json(cmp_cases[i][1]), "impl": full_obs[i][:1500]}))
         for n, i in enumerate(mism[:8]):
             model_says = ""
             if n == 0:
                 model_says = coqrun.eval_terms(IMPORTS, ["run_case %s" % coq_cases[i][0]], os.path.join(ctx.scratch, "diag"),
                                                preamble=PREAMBLE)[-3000:]
             ctx.broke("correspondence: history differs between model and implementation",
-                      json.dumps({"full": cases[i][0], "ops": ops_json(cases[i][1]), "impl": full_obs[i][:1500],
+                      json.dumps({"full": cmp_cases[i][0], "ops": ops_json(cmp_cases[i][1]), "impl": full_obs[i][:1500],
                                   "model": model_says}))
         ctx.coverage["traces_validated_against_impl"] += len(coq_cases) - len(mism)
 
@@ -1449,6 +1553,12 @@ def _stage_c(ctx, r, pool, have_model, have_gen=False):
     # ---- collect the exhaustive families
     tm["notify"] = round(time.time() - t0, 1)
     enum_res = async_enum.get()
+    f_res = async_f.get()
+    ctx.coverage["evaluations"] += sum(x[1] for x in f_res)
+    ctx._distinct.add(("enum-oracle", ff["name"], sum(x[2] for x in f_res)))
+    for viols, _, _ in f_res:
+        for ops, v in viols[:1]:
+            report(ctx, ops, False, v)
     tm["impl_exhaustive"] = round(time.time() - t0, 1)
     nseq_total = 0
     for (name, head), (acc, viols, nseq, nontriv), job in zip(enum_meta, enum_res, enum_jobs):
@@ -1458,7 +1568,7 @@ def _stage_c(ctx, r, pool, have_model, have_gen=False):
         for ops, v in viols[:2]:
             report(ctx, ops, False, v)
     ctx.extra["exhaustive"] = [{"family": f["name"], "alphabet": len(f["alpha"]), "depth": f["depth"],
-                                "sequences": len(f["alpha"]) ** f["depth"]} for f in fams]
+                                "sequences": len(f["alpha"]) ** f["depth"]} for f in fams + [ff]]
     ctx.coverage["distinct_nontrivial_enum"] = sum(x[3] for x in enum_res)
     if have_model:
         ecases = [(c, str(res[0])) for c, res in zip(enum_cases, enum_res)]
@@ -1478,7 +1588,8 @@ def _stage_c(ctx, r, pool, have_model, have_gen=False):
         "exhaustive: every operation sequence of the stated depth over 4 alphabets (send-anon, send-plain, circuit gains hop / "
         "ready, close, remove, attach, detach, toggle, foreign/unusable circuits) on the real objects, digest-compared with the "
         "model; generated: random op mixes incl. short / near-miss prefixes, hops 0..3, foreign circuits, queue overflow "
-        "(>100 waiting packets), and real Community objects launched with/without settings.anonymize sending introduction "
+        "(>100 waiting packets, also after a flush: wait -> ready -> flush -> circuit gone -> overflow; the same exhaustively and "
+        "with noise under a small harness-side bound, oracle only), and real Community objects launched with/without settings.anonymize sending introduction "
         "requests; delivery filter: all listener flag combinations up to 3 listeners + random; non-trivial = history with a "
         "tunnel send or a queued packet")
     ctx.coverage["exhaustive"] = False
